@@ -46,6 +46,44 @@ class WSession:
                 self.userfiles.append(fh)
                 self.writers.append(FileWriter(fh))
                 self.backing.append(path)
+            elif k in ("console_b", "console_t", "console_e"):
+                # the bundled ConsoleWriter, constructed while stdout / stderr is a capturing stand-in (a binary buffer behind
+                # .buffer, or a text stream without one); it keeps that file for its lifetime
+                import sys
+                from gscrib.writers import ConsoleWriter
+                cap = io.StringIO(newline="") if k == "console_t" else io.BytesIO()
+                stand_in = cap if k == "console_t" else type("Std", (), {"buffer": cap})()
+                name = "stderr" if k == "console_e" else "stdout"
+                saved = getattr(sys, name)
+                setattr(sys, name, stand_in)
+                try:
+                    self.writers.append(ConsoleWriter(stderr=(k == "console_e")))
+                finally:
+                    setattr(sys, name, saved)
+                self.backing.append(cap)
+            elif k == "log":
+                # the bundled LogWriter: every LogWriter logs to the same module logger, so one per session; a handler of the
+                # session renders each record as its message and a newline
+                import logging
+                from gscrib.writers import LogWriter
+                logging.disable(logging.NOTSET)
+                w = LogWriter()
+                w.set_level("info")
+                chunks = []
+
+                class _H(logging.Handler):
+                    def __init__(self, sink):
+                        super().__init__()
+                        self.sink = sink          # bound here: the loop variable is reused by later writers
+
+                    def emit(self, record):
+                        self.sink.append(record.getMessage().encode("utf-8") + b"\n")
+                h = _H(chunks)
+                w.get_logger().addHandler(h)
+                self.log_cleanup = (w.get_logger(), h, w.get_logger().propagate)
+                w.get_logger().propagate = False
+                self.writers.append(w)
+                self.backing.append(chunks)
             else:
                 chunks = []
                 self.writers.append(self._custom(BaseWriter, chunks, i))
@@ -81,9 +119,9 @@ class WSession:
                         out.append(list(fh.read()))
                 except FileNotFoundError:
                     out.append([])
-            elif k == "binary":
+            elif k in ("binary", "console_b", "console_e"):
                 out.append(list(b.getvalue()))
-            elif k == "text":
+            elif k in ("text", "console_t"):
                 out.append(list(b.getvalue().encode("utf-8")))
             else:
                 out.append(list(b"".join(b)))
@@ -143,8 +181,13 @@ class WSession:
                 fh.close()
             except Exception:
                 pass
+        if getattr(self, "log_cleanup", None):
+            lg, h, prop = self.log_cleanup
+            lg.removeHandler(h)
+            lg.propagate = prop
         shutil.rmtree(self.dir, ignore_errors=True)
-        m = {"kinds": ["ufile" if k.startswith("ufile") else k for k in self.kinds], "eol": list(self.eol.encode())}
+        m = {"kinds": ["ufile" if k.startswith("ufile") else "console" if k.startswith("console") else k for k in self.kinds],
+             "eol": list(self.eol.encode())}
         if meta:
             m.update(meta)
         return {"meta": m, "ev": self.events}
